@@ -1,6 +1,7 @@
 package main
 
 import (
+	"math"
 	"encoding/json"
 	"crypto/sha256"
 	"encoding/hex"
@@ -193,6 +194,16 @@ func uses6(d dhcpv6.DHCPv6) []readUse {
 				nc, err := netboot.ConversationToNetconf([]dhcpv6.DHCPv6{m, m})
 				return []any{nc, err != nil}
 			}},
+			// ... as the last message of a conversation whose earlier messages carry what this one lacks (an ADVERTISE with the
+			// boot file the REPLY leaves out or leaves empty, and the other way round)
+			readUse{"netboot.ConversationToNetconf(full ADVERTISE, this)", func() any {
+				nc, err := netboot.ConversationToNetconf([]dhcpv6.DHCPv6{companion6(m, true), m})
+				return []any{nc, err != nil}
+			}},
+			readUse{"netboot.ConversationToNetconf(this, bare REPLY)", func() any {
+				nc, err := netboot.ConversationToNetconf([]dhcpv6.DHCPv6{m, companion6(m, false)})
+				return []any{nc, err != nil}
+			}},
 			readUse{"dhcpv6.NewAdvertiseFromSolicit", func() any { r, err := dhcpv6.NewAdvertiseFromSolicit(m); return []any{r, err != nil} }},
 			readUse{"dhcpv6.NewReplyFromMessage", func() any { r, err := dhcpv6.NewReplyFromMessage(m); return []any{r, err != nil} }},
 			readUse{"dhcpv6.NewRequestFromAdvertise", func() any { _, err := dhcpv6.NewRequestFromAdvertise(m); return err != nil }},
@@ -208,6 +219,26 @@ func uses6(d dhcpv6.DHCPv6) []readUse {
 		us = append(us, readUse{"dhcpv6.NewRelayReplFromRelayForw", func() any { x, err := dhcpv6.NewRelayReplFromRelayForw(r, reply); return []any{x, err != nil} }})
 	}
 	return us
+}
+
+// companion6: another message of the same conversation - an ADVERTISE that carries addresses, name servers and boot file
+// (full), or a REPLY that carries the addresses only and an empty boot file URL
+func companion6(m *dhcpv6.Message, full bool) *dhcpv6.Message {
+	c := &dhcpv6.Message{MessageType: dhcpv6.MessageTypeAdvertise, TransactionID: m.TransactionID}
+	if !full {
+		c.MessageType = dhcpv6.MessageTypeReply
+	}
+	ia := &dhcpv6.OptIANA{IaId: [4]byte{1, 2, 3, 4}, T1: time.Hour, T2: 2 * time.Hour}
+	ia.Options.Options = dhcpv6.Options{&dhcpv6.OptIAAddress{IPv6Addr: net.ParseIP("2001:db8::77"), PreferredLifetime: time.Hour, ValidLifetime: 2 * time.Hour}}
+	c.AddOption(ia)
+	c.AddOption(dhcpv6.OptDNS(net.ParseIP("2001:db8::53")))
+	if full {
+		c.AddOption(dhcpv6.OptBootFileURL("tftp://[2001:db8::1]/boot.efi"))
+		c.AddOption(dhcpv6.OptBootFileParam("console=ttyS0", "quiet"))
+	} else {
+		c.AddOption(dhcpv6.OptBootFileURL(""))
+	}
+	return c
 }
 
 func safe(f func() map[string]any) (m map[string]any) {
@@ -369,6 +400,18 @@ func corpus6(rng *rand.Rand, n int) [][]byte {
 			out = append(out, d.ToBytes())
 		}
 	}
+	// long relay chains (the hop count limit of RFC 8415 is 32 - a limit for relays, not for decoders - and the hop count
+	// field goes up to 255), built on the wire around messages that carry options with and without a type in the library
+	for _, depth := range []int{8, 16, 31, 32, 33, 34, 40, 48} {
+		inner := []byte{1, 9, 9, byte(depth), 0, 8, 0, 2, 0, 7, 0xfd, 0xe9, 0, 5, 'o', 'p', 'a', 'q', byte(depth), 0, 6, 0, 4, 0, 23, 0, 24}
+		w := inner
+		for k := 0; k < depth; k++ {
+			hdr := append(append([]byte{12, byte(k)}, net.ParseIP("2001:db8::1")...), net.ParseIP("fe80::1")...)
+			hdr = append(hdr, 0xfd, 0xea, 0, 3, 'l', 'v', byte(k)) // an option without a type at every level
+			w = append(append(hdr, 0, 9, byte(len(w)>>8), byte(len(w))), w...)
+		}
+		out = append(out, w)
+	}
 	// compressed names (the label set keeps its original bytes)
 	names := []byte{3, 'f', 'o', 'o', 3, 'c', 'o', 'm', 0, 3, 'b', 'a', 'r', 0xc0, 4}
 	for _, code := range []int{24, 39} {
@@ -413,7 +456,7 @@ func genC08(o *Out, rng *rand.Rand, tier string) {
 			ev = append(ev, map[string]any{"a": "Decode", "ok": true, "val": proj4(p)})
 			s = subj4(p)
 		case "v6":
-			d, err := dhcpv6.FromBytes(buf)
+			d, err := decodeVia(buf, entryFor(in)) // through FromBytes or through the concrete entry point of its header family
 			if err != nil {
 				return
 			}
@@ -636,6 +679,32 @@ func genC20(o *Out, rng *rand.Rand, tier string) {
 			return subj4(p)
 		}, "oversized-values")
 	}
+	// numbers beyond what their wire field can hold, in hand-built values (a program computes a duration and stores it): reading
+	// and printing leave the stored value alone, whatever the encoder makes of it
+	for _, d := range []time.Duration{20 * time.Minute, 655360 * time.Millisecond, 655350 * time.Millisecond, -time.Second, 1 << 33 * time.Second, 1<<32*time.Second + 5*time.Second, -5 * time.Hour, math.MaxInt64} {
+		dd := d
+		exhaustive(func(r *rand.Rand) subject { return subjOpt6(dhcpv6.OptElapsedTime(dd)) }, "out-of-range-numbers")
+		exhaustive(func(r *rand.Rand) subject { return subjOpt6(dhcpv6.OptInformationRefreshTime(dd)) }, "out-of-range-numbers")
+		exhaustive(func(r *rand.Rand) subject {
+			return subjOpt6(&dhcpv6.OptIANA{IaId: [4]byte{1, 2, 3, 4}, T1: dd, T2: dd + time.Second,
+				Options: dhcpv6.IdentityOptions{Options: dhcpv6.Options{&dhcpv6.OptIAAddress{IPv6Addr: net.ParseIP("2001:db8::9"), PreferredLifetime: dd, ValidLifetime: dd}}}})
+		}, "out-of-range-numbers")
+		exhaustive(func(r *rand.Rand) subject {
+			m := &dhcpv6.Message{MessageType: dhcpv6.MessageTypeSolicit}
+			copy(m.TransactionID[:], randBytes(r, 3))
+			m.AddOption(dhcpv6.OptClientID(&dhcpv6.DUIDLL{HWType: 1, LinkLayerAddr: randBytes(r, 6)}))
+			m.AddOption(dhcpv6.OptElapsedTime(dd))
+			m.AddOption(dhcpv6.OptInformationRefreshTime(dd))
+			m.AddOption(&dhcpv6.OptIAPD{IaId: [4]byte{9, 9, 9, 9}, T1: dd, T2: dd})
+			return subj6(m)
+		}, "out-of-range-numbers")
+		exhaustive(func(r *rand.Rand) subject { return subjOpt4(dhcpv4.OptIPAddressLeaseTime(dd)) }, "out-of-range-numbers")
+		exhaustive(func(r *rand.Rand) subject {
+			p, _ := dhcpv4.New(dhcpv4.WithOption(dhcpv4.OptRenewTimeValue(dd)), dhcpv4.WithOption(dhcpv4.OptRebindingTimeValue(dd)), dhcpv4.WithOption(dhcpv4.OptIPv6OnlyPreferred(dd)))
+			copy(p.TransactionID[:], randBytes(r, 4))
+			return subj4(p)
+		}, "out-of-range-numbers")
+	}
 	for k := 0; k < 6; k++ {
 		exhaustive(func(r *rand.Rand) subject {
 			p := randPacket4(r, 4, []int{0, 1, 4, 8})
@@ -661,7 +730,14 @@ func genC20(o *Out, rng *rand.Rand, tier string) {
 			m.AddOption(dhcpv6.OptDNS(net.ParseIP("2001:db8::53")))
 			m.AddOption(dhcpv6.OptDomainSearchList(&rfc1035label.Labels{Labels: append([]string(nil), names...)}))
 			m.AddOption(randOpt6(r, 56, 1))
-			m.AddOption(dhcpv6.OptBootFileURL("http://boot.example/x"))
+			switch kk % 4 { // the boot file: given, present but empty, parameters without a file, absent
+			case 0:
+				m.AddOption(dhcpv6.OptBootFileURL("http://boot.example/x"))
+			case 1:
+				m.AddOption(dhcpv6.OptBootFileURL(""))
+			case 2:
+				m.AddOption(dhcpv6.OptBootFileParam("a=b", "c"))
+			}
 			if kk >= 5 { // as received
 				if d, err := dhcpv6.FromBytes(m.ToBytes()); err == nil {
 					return subj6(d)
